@@ -343,9 +343,10 @@ TSRecvRet ==
                                  /\ CodeOk(hs[hOfC[E.c]].code, E.code))) = TRUE
             /\ calls' = [calls EXCEPT ![E.c].term = "err"]
   /\ UNCHANGED <<pc, phase, rvars, hs, hOfC, pend>>
-\* lines that only announce an operation whose outcome is judged at its return
+\* lines that only announce an operation whose outcome is judged at its return; GatePark /
+\* GatePass: the scenario holds / releases the dispatcher (enqueue window, interceptor, callback)
 TNote == /\ phase = "run" /\ l <= Len(Trace) /\ l' = l + 1
-         /\ E.ev \in {"SOpen", "SRecv", "HRecv", "SSendRet", "SCloseRet", "Tick"}
+         /\ E.ev \in {"SOpen", "SRecv", "HRecv", "SSendRet", "SCloseRet", "Tick", "GatePark", "GatePass"}
          /\ UNCHANGED vars
 TPend == /\ Run("Pend") /\ E.c \in DOMAIN calls
          /\ pend' = pend \cup {E.c}
